@@ -80,6 +80,7 @@ package cty
 //@   let ot (vty other)
 //@   let sc (or (is_dyn_ty t) (is_dyn_ty ot) (not (is_known val)) (not (is_known other)))
 //@   let p (imax (num_p val) (num_p other))
+//@   panic_value[C02] (=> (and (isnum val) (isnum other) (not (is_marked val)) (not (is_marked other))) ((_ is box<math/big.ErrNaN>) $pv))
 //@   panics[C02] (or (and (not (is_dyn_ty t)) (not (is_number_ty t))) (and (not (is_dyn_ty ot)) (not (is_number_ty ot))) (and (not sc) (or (is_null val) (is_null other) (and (not (= (num_i val) 0)) (= (num_i other) (- (num_i val)))))))
 //@   ensures[C02] type: (is_number_ty (vty result))
 //@   ensures[C02] known: (=> (not sc) (and (kn result) (= (num_p result) p) (= (num_i result) (ite (not (= (num_i val) 0)) (num_i val) (num_i other))) (=> (and (= (num_i val) 0) (= (num_i other) 0)) (= (num_r result) (rnd p (+ (num_r val) (num_r other)))))))
@@ -108,6 +109,7 @@ package cty
 //@   let ot (vty other)
 //@   let sc (or (is_dyn_ty t) (is_dyn_ty ot) (not (is_known val)) (not (is_known other)))
 //@   let p (imax (num_p val) (num_p other))
+//@   panic_value[C02] (=> (and (isnum val) (isnum other) (not (is_marked val)) (not (is_marked other))) ((_ is box<math/big.ErrNaN>) $pv))
 //@   panics[C02] (or (and (not (is_dyn_ty t)) (not (is_number_ty t))) (and (not (is_dyn_ty ot)) (not (is_number_ty ot))) (and (not sc) (or (is_null val) (is_null other) (and (not (= (num_i val) 0)) (= (num_i other) (num_i val))))))
 //@   ensures[C02] type: (is_number_ty (vty result))
 //@   ensures[C02] known: (=> (not sc) (and (kn result) (= (num_p result) p) (= (num_i result) (ite (not (= (num_i val) 0)) (num_i val) (- (num_i other)))) (=> (and (= (num_i val) 0) (= (num_i other) 0)) (= (num_r result) (rnd p (- (num_r val) (num_r other)))))))
@@ -136,7 +138,7 @@ package cty
 //@   panics[C02] (or (and (not (is_dyn_ty t)) (not (is_number_ty t))) (and (not (is_dyn_ty ot)) (not (is_number_ty ot))) (and (not sc) (or (is_null val) (is_null other))))
 //@   ensures[C02] type: (is_bool_ty (vty result))
 //@   ensures[C02] known: (=> (not sc) (bool_payload result (bf_lt (bf_of val) (bf_of other))))
-//@   ensures[C01] sound: ghost ((c1i Int) (c1r Real) (c2i Int) (c2r Real)) :: (=> (and (not (is_marked val)) (not (is_marked other)) (is_number_ty t) (is_number_ty ot) (num_admits val c1i c1r) (num_admits other c2i c2r) (is_known result)) (bool_payload result (x_lt c1i c1r c2i c2r)))
+//@   ensures[C01] sound: ghost ((c1i Int) (c1r Real) (c2i Int) (c2r Real)) pattern ((adm val c1i c1r) (adm other c2i c2r)) :: (=> (and (not (is_marked val)) (not (is_marked other)) (is_number_ty t) (is_number_ty ot) (adm val c1i c1r) (adm other c2i c2r) (is_known result)) (bool_payload result (x_lt c1i c1r c2i c2r)))
 //@   ensures[C01] notnull: (not (is_null result))
 //@   ensures[C04] marks_kept: (forall ((k Any)) (! (=> (or (select (marks_of val) k) (select (marks_of other) k)) (select (marks_of result) k)) :pattern ((select (marks_of result) k))))
 //@   ensures[C04] nomarks: (=> (and (not (is_marked val)) (not (is_marked other))) (not (is_marked result)))
@@ -151,7 +153,7 @@ package cty
 //@   panics[C02] (or (and (not (is_dyn_ty t)) (not (is_number_ty t))) (and (not (is_dyn_ty ot)) (not (is_number_ty ot))) (and (not sc) (or (is_null val) (is_null other))))
 //@   ensures[C02] type: (is_bool_ty (vty result))
 //@   ensures[C02] known: (=> (not sc) (bool_payload result (bf_lt (bf_of other) (bf_of val))))
-//@   ensures[C01] sound: ghost ((c1i Int) (c1r Real) (c2i Int) (c2r Real)) :: (=> (and (not (is_marked val)) (not (is_marked other)) (is_number_ty t) (is_number_ty ot) (num_admits val c1i c1r) (num_admits other c2i c2r) (is_known result)) (bool_payload result (x_lt c2i c2r c1i c1r)))
+//@   ensures[C01] sound: ghost ((c1i Int) (c1r Real) (c2i Int) (c2r Real)) pattern ((adm val c1i c1r) (adm other c2i c2r)) :: (=> (and (not (is_marked val)) (not (is_marked other)) (is_number_ty t) (is_number_ty ot) (adm val c1i c1r) (adm other c2i c2r) (is_known result)) (bool_payload result (x_lt c2i c2r c1i c1r)))
 //@   ensures[C01] notnull: (not (is_null result))
 //@   ensures[C04] marks_kept: (forall ((k Any)) (! (=> (or (select (marks_of val) k) (select (marks_of other) k)) (select (marks_of result) k)) :pattern ((select (marks_of result) k))))
 //@   ensures[C04] nomarks: (=> (and (not (is_marked val)) (not (is_marked other))) (not (is_marked result)))
@@ -167,6 +169,7 @@ package cty
 //@   let sc (or (is_dyn_ty t) (is_dyn_ty ot) (not (is_known val)) (not (is_known other)))
 //@   let A (bf_of val)
 //@   let B (bf_of other)
+//@   panic_value[C02] (=> (and (isnum val) (isnum other) (not (is_marked val)) (not (is_marked other))) ((_ is box<math/big.ErrNaN>) $pv))
 //@   panics[C02] (or (and (not (is_dyn_ty t)) (not (is_number_ty t))) (and (not (is_dyn_ty ot)) (not (is_number_ty ot))) (and (not sc) (or (is_null val) (is_null other) (and (bf_iszero A) (not (= (bf.inf B) 0))) (and (bf_iszero B) (not (= (bf.inf A) 0))))))
 //@   ensures[C02] type: (is_number_ty (vty result))
 //@   ensures[C02] known: (=> (not sc) (and (kn result) (>= (num_p result) (imax (bf.prec A) (bf.prec B))) (= (num_i result) (ite (and (= (bf.inf A) 0) (= (bf.inf B) 0)) 0 (* (bf_sgn A) (bf_sgn B)))) (=> (and (= (bf.inf A) 0) (= (bf.inf B) 0)) (= (num_r result) (rnd 512 (* (bf.val A) (bf.val B)))))))
@@ -188,6 +191,7 @@ package cty
 //@   let A (bf_of val)
 //@   let B (bf_of other)
 //@   let p (imax (bf.prec A) (bf.prec B))
+//@   panic_value[C02] (=> (and (isnum val) (isnum other) (not (is_marked val)) (not (is_marked other))) ((_ is box<math/big.ErrNaN>) $pv))
 //@   panics[C02] (or (and (not (is_dyn_ty t)) (not (is_number_ty t))) (and (not (is_dyn_ty ot)) (not (is_number_ty ot))) (and (not sc) (or (is_null val) (is_null other) (and (bf_iszero A) (bf_iszero B)) (and (not (= (bf.inf A) 0)) (not (= (bf.inf B) 0))))))
 //@   ensures[C02] type: (is_number_ty (vty result))
 //@   ensures[C02] known: (=> (not sc) (and (kn result) (= (num_p result) p) (=> (and (= (bf.inf A) 0) (= (bf.inf B) 0) (not (bf_iszero B))) (and (= (num_i result) 0) (= (num_r result) (rnd p (/ (bf.val A) (bf.val B))))))))
